@@ -893,7 +893,7 @@ pub fn run(args: &Args, sink: &mut Sink) {
     }
     // ---- R. random histories over random chains -----------------------------------------------------------------
     let mut rng = Rng(args.seed ^ 0xADA9);
-    let rounds = if thorough { 30000 } else { 4000 };
+    let rounds = if thorough { 200000 } else { 4000 };
     for k in 0..rounds {
         let mut r = rng.fork();
         let nst = 1 + r.below(3).min(if r.chance(1, 2) { 1 } else { 2 });
